@@ -33,6 +33,7 @@ type Prog struct {
 	GoFiles      int
 	IgnoredFiles int
 
+	pure     map[*types.Func]*pureEntry
 	decls    []*declInfo
 	src      *srcCache
 	Recovery *RecoveryReport // renames recognised against the embedded baseline, novel helpers
@@ -54,6 +55,8 @@ type Unit struct {
 	g         *Graph
 	calls     []*Call
 	callsDone bool
+	inl       []*Call
+	inlDone   bool
 }
 
 func (u *Unit) Info() *types.Info { return u.Pkg.TypesInfo }
